@@ -11,3 +11,4 @@ import WhatIs.Props.C18
 import WhatIs.Props.C06
 import WhatIs.Props.C04
 import WhatIs.Props.C09
+import WhatIs.Props.C03
